@@ -333,6 +333,23 @@ fn check_bank_output(
         }
     }
 
+    // The item's position in the output must be addressable
+    // (it can only fail to be in a bank without a size)
+    if let Some(output_offset) = bankdef.output_offset
+    {
+        if output_offset
+            .checked_add(ctx.bank_data.cur_position)
+            .and_then(|pos| pos.checked_add(size))
+            .is_none()
+        {
+            report.error_span(
+                "value is out of supported range",
+                span);
+
+            return Err(());
+        }
+    }
+
     if write && bankdef.output_offset.is_none()
     {
         report.push_parent(
